@@ -18,7 +18,7 @@ import socket
 import tempfile
 from typing import Any
 
-from .. import tlc, traces, vsync
+from .. import harness, tlc, traces, vsync
 from ..common import Check
 
 LEVEL = "model_checking"
@@ -165,7 +165,7 @@ async def _async_adapter_scenario(chunks: list[int], use_iterable: bool) -> tupl
     try:
         await asyncio.wait_for(adapter.aclose(), 3)
     except asyncio.TimeoutError:
-        getattr(adapter, "_AsyncioTransportStreamSocketAdapter__transport").abort()
+        harness.asyncio_transport_of(adapter).abort()
         await asyncio.sleep(0)
         if verdict[0]:
             verdict = (False, "all bytes were delivered but the transport never finishes closing: the event loop spins on the write event")
